@@ -215,6 +215,14 @@ def run(ctx: Ctx):
     rep = prove_functions(SPEC_MODULES, keys, tier=ctx.tier, lemma_groups=("fenwick", "uf"))
     ctx.add_proof_report(rep)
     ctx.notes["hygiene"] = rep["hygiene"]
+    # engine self-test: crafted functions the prover must refuse or fail to prove (aliasing lint, write sets)
+    import sys as _sys
+    _sys.path.insert(0, __import__("os").path.join(__import__("vf.core", fromlist=["VERIF"]).VERIF, "tools"))
+    import selftest_engine
+    bad = selftest_engine.run()
+    ctx.notes["engine_selftest"] = bad or "ok: 3 aliasing functions refused, copy proved, 2 false contracts not proved"
+    for b in bad:
+        ctx.defects.append("engine self-test: " + b)
     bounded(ctx)
     ctx.rule = ("proof: one obligation per ensures-conjunct / invariant / bounds / frame / call-precondition of every "
                 "contract listed in functions_under_contract. bounded cross-check: operation histories against a naive "
